@@ -243,6 +243,12 @@ def run(ctx: Ctx) -> Result:
         res.count(f"instances_{len(sc['names'])}")
         if bad:
             sig, what, step = bad
+            # (deterministic scenario: what it shows, it shows again -- see c04.run_scenarios)
+            bad2, _h2, _fb2 = run_one(sc)
+            if bad2 is None or bad2[0] != sig:
+                res.notes.append(f"NOT REPRODUCED (no violation reported): {sig}: {what[:200]} -- the same scenario run again shows nothing")
+                res.count('observations_not_reproduced')
+                continue
             if fb and sig in ('failover-divergence', 'action-not-exactly-once'):
                 sig = 'feedback-duplication'
             res.violations.append(Violation(sig, what, {**sc, 'failing_step': step}))
